@@ -88,6 +88,10 @@ checks.update({
    technique="TLA+ trace predicate over recorded runs (Trace_Det.tla: all outcomes and SHA-256 of json.Marshal(document) equal across R repeated runs and P input copies with permuted JSON member order; Expand claimed only when HasCycle(bundle) of RefSem.tla is false); cases from the TLC-enumerated scenario family (incl. two imports on one base name, one target under two $ref spellings, sibling keys equal up to case) and the directed corpus",
    text="model_checking (trace validation) of sampled schedules: each (bundle of W, option set) is flattened R=5 (thorough 16) times in worker processes (Go randomises every map range) and on P=2 (6) copies of the files whose JSON members are written in a permuted order; TLC decides equality of outcomes and hashes and computes the applicability of Expand from the $ref graph. Map-iteration schedules can only be sampled on the real code: a two-way order dependence is missed with probability 2^-(R-1) per case.",
    note="Trusted: Go's per-range map randomisation as schedule sampler; projection; TLC/Json. The self-composed pipeline model (MC_FlattenDet) of DESIGN.md is not built: the order-dependent choice points are exercised through the directed scenarios instead.", ref="7/C07"),
+ "C16": dict(
+   technique="TLA+ process model of N readers on one shared index (Readers.tla: Query / Scribble, invariant ReadOnly; negative control with an aliasing getter must violate it) checked exhaustively by TLC; bound by traces of G goroutines on one real analyzed Spec under Go's race detector: every event [goroutine, seq, query, canonical answer] validated by TLC (Trace_Readers) against the sequential baseline answers, document serialized identically before/after",
+   text="model_checking + race detection: TLC explores all interleavings of 3 readers issuing queries and scribbling on handed-out maps (and confirms the invariant is not vacuous on the aliasing variant); the harness, built with -race and GORACE=halt_on_error=1, releases G=8 (16) goroutines together on one Spec, each issuing a seeded random sequence of all public query methods and mutating every returned pattern/enum map; a detected race kills the worker and is attributed; TLC checks every recorded answer equals the sequential answer and per-goroutine sequence numbers are gap-free.",
+   note="The absence of data races is decided by Go's race detector on the executed schedules (sampled, not exhaustive), not by TLC; writes into spare slice capacity of the document are visible to the race detector only. Trusted: canonicalisation of answers, TLC/Json.", ref="7/C16"),
 })
 
 def check_entry(pid, c):
